@@ -263,18 +263,27 @@ func (c CodecJSON) WriteNext(w io.Writer, b []byte) (int, error) {
 
 func (CodecJSON) Name() string { return "json" }
 
+// codecHTTPBody frames the raw bytes of google.api.HttpBody messages. The
+// mux copies the data field itself; the codec cannot encode or decode any
+// other message, which it reports as an error when it is selected for one
+// (by a request naming "google.api.HttpBody" as its content type or the
+// "body" gRPC sub-type).
 type codecHTTPBody struct{}
 
+func errHTTPBodyCodec(v any) error {
+	return fmt.Errorf("codec body: %T is not supported, only google.api.HttpBody streams", v)
+}
+
 func (codecHTTPBody) Marshal(v interface{}) ([]byte, error) {
-	panic("not implemented")
+	return nil, errHTTPBodyCodec(v)
 }
 
 func (codecHTTPBody) MarshalAppend(b []byte, v interface{}) ([]byte, error) {
-	panic("not implemented")
+	return nil, errHTTPBodyCodec(v)
 }
 
 func (codecHTTPBody) Unmarshal(data []byte, v interface{}) error {
-	panic("not implemented")
+	return errHTTPBodyCodec(v)
 }
 
 func (codecHTTPBody) Name() string { return "body" }
